@@ -281,6 +281,11 @@ class Workspace:
             p = self.root / "progs" / rel
             p.parent.mkdir(parents=True, exist_ok=True)
             p.write_text(text)
+        for dotted in ("programs.v2", "tp1.2-sorting"):  # directory names containing a dot (name != stem)
+            for rel in ("a.py", "sub/c.py"):
+                p = self.root / dotted / rel
+                p.parent.mkdir(parents=True, exist_ok=True)
+                p.write_text(PROGRAMS[rel])
         (self.root / "mytaxo.tsv").write_text(EXPLICIT_TAXONOMY)
         (self.root / "out").mkdir()
         (self.root / "deep" / "er").mkdir(parents=True)
@@ -374,6 +379,16 @@ def collect_fixed_cases(ws):
                     if t is not None:
                         opts["--taxonomy"] = t
                     cases.append({"cwd": cwd, "directory": d, "opts": opts, "sibling": sibling, "decoy": False})
+    # default output (no -o) for directory names containing a dot, and for `.` / `..` forms
+    for cwd, d in ((root, "programs.v2"), (root, "./tp1.2-sorting/"), (root, str(root / "programs.v2")), (root, "deep/../programs.v2"),
+                   (root / "deep", "../tp1.2-sorting"), (root / "programs.v2", "."), (root / "progs", "."),
+                   (root / "progs" / "sub", ".."), (root, "progs/sub/.."), (root / "progs", "../progs/sub/..")):
+        for t in (None, os.path.relpath(root / "mytaxo.tsv", cwd)):
+            for sibling in (True, False):
+                opts = {"--no_timestamp": True}
+                if t is not None:
+                    opts["--taxonomy"] = t
+                cases.append({"cwd": cwd, "directory": d, "opts": opts, "sibling": sibling, "decoy": False, "keep": True})
     # a file with the name of the explicit taxonomy next to DIRECTORY must not be preferred to the one named
     cases.append({"cwd": root, "directory": "progs/sub", "opts": {"--taxonomy": "mytaxo.tsv", "--no_timestamp": True},
                   "sibling": False, "decoy": True})
@@ -389,7 +404,8 @@ def stream_collect(ctx, drv, cli, ws, n):
 
     fixed = collect_fixed_cases(ws)
     if ctx.tier == "quick":  # the whole matrix in thorough; in quick: every (cwd, DIRECTORY, -t) once, sibling alternating
-        fixed = [c for k, c in enumerate(fixed) if c["decoy"] or "rel.json" in str(c["opts"].get("--output")) or (k // 2 + k) % 2 == 0]
+        fixed = [c for k, c in enumerate(fixed) if c["decoy"] or c.get("keep") or "rel.json" in str(c["opts"].get("--output"))
+                 or (k // 2 + k) % 2 == 0]
     for i in range(len(fixed) + n):
         r = ctx.rng
         for stale in list(ws.root.rglob("taxonomy.tsv")) + [ws.root / "progs" / "mytaxo.tsv"]:
@@ -408,7 +424,8 @@ def stream_collect(ctx, drv, cli, ws, n):
             cwd = ws.root
             ws.set_sibling_taxonomy(r.random() < 0.5)
             directory = r.choice(["progs", "progs", "./progs", "progs/", str(ws.root / "progs"), "progs/sub", "out/../progs",
-                                  "nodir", "mytaxo.tsv", "deep/../progs/sub"])
+                                  "nodir", "mytaxo.tsv", "deep/../progs/sub", "programs.v2", "tp1.2-sorting", "./programs.v2/",
+                                  "tp1.2-sorting/sub"])
             if directory.endswith("sub") and r.random() < 0.5:
                 (ws.root / "progs" / "taxonomy.tsv").write_text(SIBLING_TAXONOMY)
             opts = {}
@@ -464,8 +481,38 @@ def stream_collect(ctx, drv, cli, ws, n):
                     problem = "the JSON written is not TagDatabase(**plan).get_json()"
                 elif kind == "sqlite" and sqlite_dump(target) != lib["sqlite"]:
                     problem = "the SQLite database written is not what TagDatabase(**plan).write_sqlite gives"
+        sig = None
+        if problem is None and "plan" in model and Path(directory).name in ("", ".."):
+            # DIRECTORY is `.`, `..`, `a/..`: its LEXICAL parent (what the code and the model use) is not
+            # DIRECTORY/.. — compare with the DOCUMENTED locations instead of the model's plan
+            plan = model["plan"]
+            real = Path(os.path.normpath(cwd / directory))
+            absp = lambda q: None if q is None else os.path.normpath(str(cwd / q) if not os.path.isabs(q) else q)  # noqa
+            doc_tax = absp(plan["taxonomy_path"]) if opts.get("--taxonomy") else (
+                str(real.parent / "taxonomy.tsv") if (real.parent / "taxonomy.tsv").is_file() else None)
+            doc_out = absp(plan["out"][1]) if opts.get("--output") else str(real.parent / f"{real.name}_db.json")
+            ctx.dist("collect:dot-directory")
+            if doc_tax != absp(plan["taxonomy_path"]) or doc_out != absp(plan["out"][1]):
+                problem = (f"DIRECTORY={directory!r}: documented taxonomy {doc_tax} / output {doc_out}, "
+                           f"the command used {absp(plan['taxonomy_path'])} / {absp(plan['out'][1])} (lexical parent of DIRECTORY)")
+                expected = {"documented_taxonomy": doc_tax, "documented_output": doc_out}
+                sig = "C18:collect-dot-lexical-parent"
         for w in written:
             Path(w).unlink()
+        if problem and sig is not None:
+            ctx.cov["disagreements_checked"] += 1
+            ctx.dist(f"collect:known:{sig}")
+            if not getattr(ctx, "_c18_dot_reported", False):
+                ctx._c18_dot_reported = True
+                ctx.violations.append({
+                    "what": f"paroxython collect: {problem}",
+                    "name": "collect-dot",
+                    "replay": {"kind": "collect", "argv": argv, "cwd": os.path.relpath(cwd, ws.root), "root": str(ws.root),
+                               "taxonomy_files": sibling_files, "decoy": False,
+                               "impl": {"written": [os.path.relpath(w, ws.root) for w in written]}, "model": model, "spec": expected},
+                    "signature": sig,
+                })
+            continue
         if problem:
             ctx.cov["disagreements_checked"] += 1
             ctx.violations.append({
@@ -525,6 +572,8 @@ def stream_recommend(ctx, drv, cli, ws, n):
             (cwd, db, {"--pipe": "[]", "--output": "fixed_here.md"}),
             (cwd, db, {"--output": "stdout"}),
         ]
+    for d in ("programs.v2", "tp1.2-sorting", "./programs.v2/"):  # directory shortcut with a dot in the name
+        fixed += [(root, d, {"--output": "STDOUT"}), (root, d, {}), (root / "deep", "../" + d.strip("./"), {"--pipe": "[]"})]
     for i in range(len(fixed) + n):
         r = ctx.rng
         cwd = root
@@ -545,7 +594,13 @@ def stream_recommend(ctx, drv, cli, ws, n):
                         ("deep/er/pipe.py", PIPELINES["pipe.py"]), ("deep/pipe.py", PIPELINES["pipe.py"]),
                         ("progs_db.json-pipe.py", PIPELINES["progs-pipe.py"])):
             (ws.root / name).write_text(t)
-        choices = ["progs", "progs", "progs/", "progs_db.json", "progs-db.json", "other.json", "deep/x_db.json",
+        for name in ("programs.v2_db.json", "programs.v2_pipe.py"):
+            p = ws.root / name
+            if r.random() < 0.6:
+                p.write_text(ws.db_text if name.endswith(".json") else PIPELINES["custom_pipe.py"])
+            elif p.exists():
+                p.unlink()
+        choices = ["progs", "progs", "progs/", "programs.v2", "programs.v2_db.json", "progs_db.json", "progs-db.json", "other.json", "deep/x_db.json",
                    "deep/er/db.json", "deep/_db.json", "a_b-db.json", "missing.json", str(ws.root / "progs_db.json"),
                    "./deep/../progs_db.json", "out"]
         db = r.choice(choices)
@@ -567,8 +622,10 @@ def stream_recommend(ctx, drv, cli, ws, n):
             opts["--base"] = "base1"
         if i < len(fixed):
             cwd, db, opts = fixed[i][0], fixed[i][1], dict(fixed[i][2])
-            for name in ("deep/x_db.json", "progs_db.json"):
+            for name in ("deep/x_db.json", "progs_db.json", "programs.v2_db.json", "tp1.2-sorting_db.json"):
                 (root / name).write_text(ws.db_text)
+            for name in ("programs.v2_pipe.py", "tp1.2-sorting_pipe.py"):
+                (root / name).write_text(PIPELINES["custom_pipe.py"])
             (root / "progs_pipe.py").write_text(PIPELINES["progs_pipe.py"])
             ctx.dist("recommend:fixed-relative-paths")
         argv = ["recommend"] + argv_of(r, opts, db)
